@@ -632,46 +632,125 @@ pub struct RoomDefinitionLog {
     pub history_hash: Option<Vec<u8>>,
 }
 impl RoomDefinitionLog {
+    ///
+    /// summary of a room: the date of its definition and the state of its daily log.
+    /// The log has one history per entity: the summary covers the last entry of every entity,
+    /// not only the entities modified during the last day
+    ///
     pub fn get(
         room_id: &Uid,
         conn: &Connection,
     ) -> Result<Option<RoomDefinitionLog>, rusqlite::Error> {
-        let query = "
-            SELECT 
-                rcl.room_id as room_id,  
-                rcl.mdate as room_def_date, 
-                dl.date as last_data,
+        let mut stmt =
+            conn.prepare_cached("SELECT mdate FROM _room_changelog WHERE room_id = ?")?;
+        let mut rows = stmt.query([&room_id])?;
+        let room_def_date: i64 = match rows.next()? {
+            Some(row) => row.get(0)?,
+            None => return Ok(None),
+        };
+
+        //last entry of every entity
+        let mut stmt = conn.prepare_cached(
+            "SELECT
+                dl.entity,
+                dl.date,
                 dl.entry_number,
                 dl.daily_hash,
                 dl.history_hash
-            FROM _room_changelog rcl
-            LEFT JOIN (
-                SELECT 
-                    _dl.room_id,
-                    _dl.date,
-                    _dl.entry_number,
-                    _dl.daily_hash,
-                    _dl.history_hash
-                FROM _daily_log _dl
-                WHERE date = (SELECT MAX(date) FROM _daily_log WHERE _dl.room_id=_daily_log.room_id)
-            ) as dl ON rcl.room_id=dl.room_id
-            WHERE rcl.room_id = ?
-            ";
-        let mut stmt = conn.prepare(query)?;
+            FROM _daily_log dl
+            WHERE
+                dl.room_id = ?
+                AND dl.date = (
+                    SELECT MAX(date) FROM _daily_log
+                    WHERE _daily_log.room_id = dl.room_id AND _daily_log.entity = dl.entity
+                )
+            ORDER BY dl.entity",
+        )?;
         let mut rows = stmt.query([&room_id])?;
-        let res = if let Some(row) = rows.next()? {
-            Some(RoomDefinitionLog {
-                room_id: row.get(0)?,
-                room_def_date: row.get(1)?,
-                last_data_date: row.get(2)?,
-                entry_number: row.get(3)?,
-                daily_hash: row.get(4)?,
-                history_hash: row.get(5)?,
-            })
-        } else {
-            None
+        struct LastEntry {
+            entity: String,
+            date: i64,
+            entry_number: u32,
+            daily_hash: Option<Vec<u8>>,
+            history_hash: Option<Vec<u8>>,
+        }
+        let mut entries: Vec<LastEntry> = Vec::new();
+        while let Some(row) = rows.next()? {
+            entries.push(LastEntry {
+                entity: row.get(0)?,
+                date: row.get(1)?,
+                entry_number: row.get(2)?,
+                daily_hash: row.get(3)?,
+                history_hash: row.get(4)?,
+            });
+        }
+
+        let last_data_date = entries.iter().map(|e| e.date).max();
+        let mut res = RoomDefinitionLog {
+            room_id: *room_id,
+            room_def_date,
+            last_data_date,
+            entry_number: None,
+            daily_hash: None,
+            history_hash: None,
         };
-        Ok(res)
+        let last_date = match last_data_date {
+            Some(date) => date,
+            None => return Ok(Some(res)),
+        };
+
+        //a room with a single entity is summarised by the entry itself
+        if entries.len() == 1 {
+            let entry = entries.pop().unwrap();
+            res.entry_number = Some(entry.entry_number);
+            res.daily_hash = entry.daily_hash;
+            res.history_hash = entry.history_hash;
+            return Ok(Some(res));
+        }
+
+        let mut entry_number = 0;
+        let mut daily_hasher = blake3::Hasher::new();
+        let mut daily_complete = true;
+        let mut history_hasher = blake3::Hasher::new();
+        let mut history_complete = true;
+        for entry in &entries {
+            if entry.date == last_date {
+                entry_number += entry.entry_number;
+                match &entry.daily_hash {
+                    Some(hash) => {
+                        daily_hasher.update(entry.entity.as_bytes());
+                        daily_hasher.update(hash);
+                    }
+                    None => daily_complete = false,
+                }
+            }
+            //the history hash of an entry covers the days before it
+            match &entry.history_hash {
+                Some(hash) => {
+                    history_hasher.update(entry.entity.as_bytes());
+                    history_hasher.update(&entry.date.to_le_bytes());
+                    history_hasher.update(hash);
+                }
+                None => history_complete = false,
+            }
+            //the last entry of an entity that was not modified during the last day is part of the history
+            if entry.date != last_date {
+                match &entry.daily_hash {
+                    Some(hash) => {
+                        history_hasher.update(hash);
+                    }
+                    None => history_complete = false,
+                }
+            }
+        }
+        res.entry_number = Some(entry_number);
+        if daily_complete {
+            res.daily_hash = Some(daily_hasher.finalize().as_bytes().to_vec());
+        }
+        if history_complete {
+            res.history_hash = Some(history_hasher.finalize().as_bytes().to_vec());
+        }
+        Ok(Some(res))
     }
 }
 #[cfg(test)]
